@@ -52,6 +52,24 @@ def _last_def(fn, local, path, i, j):
     return None
 
 
+def _field_writes_between(fn, local, path, start, end):
+    """Single-level field assignments `local.f = rv` on the path after position `start` (exclusive) and before `end`
+    (exclusive); positions are (path index, statement index).  -> [(pi, sj, idx, name, rvalue)] in path order."""
+    bl = fn["blocks"]
+    out = []
+    (si, sj0), (ei, ej) = start, end
+    for pi in range(max(si, 0), ei + 1):
+        b = bl[path[pi]]
+        lo = sj0 + 1 if pi == si else 0
+        hi = min(len(b["s"]), ej) if pi == ei else len(b["s"])
+        for sj in range(lo, hi):
+            st = b["s"][sj]
+            if st[0] == "=" and st[1][0] == local and len(st[1][1]) == 1 and isinstance(st[1][1][0], str) and st[1][1][0].startswith("."):
+                idx, _, name = st[1][1][0][1:].partition(":")
+                out.append((pi, sj, int(idx), name, st[2]))
+    return out
+
+
 def resolve(fn, e, path, i, j=INF, depth=0):
     """Replace φ-locals in expression `e` (evaluated at position (i, j) of `path`) by their definition on the path."""
     if depth > 24 or not isinstance(e, tuple):
@@ -59,19 +77,35 @@ def resolve(fn, e, path, i, j=INF, depth=0):
     k = e[0]
     if k == "phi":
         d = _last_def(fn, e[1], path, i, j)
-        if d is None:
+        is_arg = 1 <= e[1] <= fn["nargs"]
+        if d is None and not is_arg:
             return e
-        pi, pj, kind, payload = d
-        if kind == "stmt":
-            return resolve(fn, _rv(fn, payload), path, pi, pj, depth + 1)
-        t = payload
-        return ("call", t[1], [resolve(fn, _op(fn, a), path, pi, INF, depth + 1) for a in t[2]], path[pi])
+        if d is None:
+            base, start = ("arg", e[1]), (0, -1)
+        else:
+            pi, pj, kind, payload = d
+            if kind == "stmt":
+                base = resolve(fn, _rv(fn, payload), path, pi, pj, depth + 1)
+                start = (pi, pj)
+            else:
+                t = payload
+                base = ("call", t[1], [resolve(fn, _op(fn, a), path, pi, INF, depth + 1) for a in t[2]], path[pi])
+                start = (pi, len(fn["blocks"][path[pi]]["s"]))
+        # in-place updates of single fields after that definition (`self.count += 1; self`)
+        for (wi, wj, idx, name, rv) in _field_writes_between(fn, e[1], path, start, (i, j if j != INF else INF)):
+            val = resolve(fn, _rv(fn, rv), path, wi, wj, depth + 1)
+            base = ("upd", base, name, idx, val)
+        return base
     if k == "call":
         return ("call", e[1], [resolve(fn, a, path, i, j, depth + 1) for a in e[2]], e[3] if len(e) > 3 else None)
     if k in ("ref", "deref"):
         return (k, resolve(fn, e[1], path, i, j, depth + 1))
     if k == "field":
         inner = resolve(fn, e[1], path, i, j, depth + 1)
+        while inner[0] == "upd":
+            if inner[3] == e[3]:
+                return inner[4]
+            inner = inner[1]
         if inner[0] == "agg" and inner[1] != "array" and e[3] < len(inner[2]):
             return inner[2][e[3]]
         return ("field", inner, e[2], e[3])
@@ -91,7 +125,9 @@ def resolve(fn, e, path, i, j=INF, depth=0):
 
 
 def _shallow_local(fn, local):
-    return ("phi", local) if not (1 <= local <= fn["nargs"] and not any(x[4] for x in graph(fn).defs().get(local, []))) else ("arg", local)
+    if 1 <= local <= fn["nargs"] and not graph(fn).defs().get(local, []):
+        return ("arg", local)
+    return ("phi", local)
 
 
 def _place(fn, place):
